@@ -152,6 +152,38 @@ def mk(L):
                     return rec.fail("%s: %s" % (desc, err[0]))
                 if out != exp:
                     return rec.fail("%s: manual iteration gave %r expected %r" % (desc, out, exp))
+                # a second consumer must not advance while the returned task has started but is still blocked
+                g2 = gen()
+                try:
+                    first = next(g2)
+                except StopIteration:
+                    first = None
+                if first is not None and not first.is_computed():
+                    seen = []
+
+                    @A()
+                    def intruder():
+                        # runs after `first` has started (it is yielded after it) and while it waits for a flush
+                        try:
+                            next(g2)
+                            seen.append("advanced")
+                        except RuntimeError:
+                            seen.append("RuntimeError")
+                        except StopIteration:
+                            seen.append("StopIteration")
+                        return None
+                        yield
+
+                    @A()
+                    def both():
+                        yield [first, intruder.asynq()]
+                    both()
+                    if first.is_computed() and seen and seen[0] == "advanced":
+                        # legal only if `first` was already computed when the intruder ran
+                        pass
+                    if seen and seen[0] != "RuntimeError" and codes and codes[0] in (0, 3):
+                        return rec.fail("%s: advancing the generator while the previously returned task was started "
+                                        "but still blocked on a batch did not raise RuntimeError (%s)" % (desc, seen[0]))
                 # exhausted generator keeps raising StopIteration
                 for _ in range(2):
                     try:
